@@ -164,3 +164,14 @@ Theorem c04_script_exact_on_core_with_expressions : forall noise e ss,
   script_pairs e false [] (map (r_stmt_x noise) ss) = spec_script_pairs (e_cfg e) ss.
 Proof. exact script_exact_on_core_x. Qed.
 Print Assumptions c04_script_exact_on_core_with_expressions.
+
+(** * Scripts that also contain UPDATE / MERGE statements and plain SELECTs with expression items (Tree/ScriptExactDml.v) *)
+From SV Require Import Ast.SpecDml Ast.SpecDmlCols Tree.RenderDml Tree.LemmaBDml Tree.ScriptExactDml.
+Theorem c04_script_exact_with_update_and_merge : forall noise e xs,
+  noise_ok noise = true -> env_ok e = true ->
+  Forall (fun x => match x with
+     | SS s => ((stmt_ok_x s = true /\ colshape s = true /\ resolved_x s = true) \/ is_nodata s = true) \/ plain_query_x s = true
+     | SD d => dml_cols_ok d = true /\ dml_resolved d = true end) xs ->
+  script_pairs e false [] (map (r_sstmt noise) xs) = spec_script_pairs_xd (e_cfg e) xs.
+Proof. exact script_exact_on_core_xd. Qed.
+Print Assumptions c04_script_exact_with_update_and_merge.
